@@ -1,3 +1,140 @@
 import Driver.Common
-/-! Driver for property C08 (stub: the model for this property is not built yet). -/
-def main : IO Unit := Driver.run (fun (s : Unit) _ => (s, "unimplemented")) ()
+import TxdbusModel.Client.Calls
+/-!
+Driver for property C08: the pending-call model, one operation per line.
+
+Values are opaque tokens without spaces: `s<hex code points>` for a Python `str`,
+`o<hex>` for anything else.  Strings (signatures, error names) are `S<hex code points>`
+(6 hex digits per code point, `S-` = empty), `N` = None.
+
+  reset <0|1>                         new connection; 1 = ready (Hello answered)     -> ok
+  call <serial> <0|1> <N|Z|P> <rs>    callRemote: expectReply, timeout None/0/positive, returnSignature
+  callbad <rs>                        callRemote whose message construction raised
+  ret <reply_serial> <sig> <body>     method return; body = `N` | `L tok*`
+  err <reply_serial> <name> <body>    error reply
+  expire <tid>                        the reactor runs the timeout of call <tid>
+  lost <n>                            connectionLost(reason n)
+  cvt <rs> N | cvt <rs> M <sig> <body>   _cbCvtReply called directly
+
+  <rs> = K (the _NO_CHECK_RETURN default) | N (None) | S<hex>
+
+Every state operation answers
+  F[<did>=<outcome>;...] P[<serial>:<did>:<t|->,...] T[<tid>:<serial>,...] X[<fault>,...]
+with the firings and faults that are new since the previous answer.
+-/
+open Txdbus.Calls Driver
+
+abbrev DV := String
+abbrev DSt := St DV Nat
+
+def asStrTok (t : DV) : Option (List Char) :=
+  match t.toList with
+  | 's' :: rest => hexToChars? (String.ofList rest)
+  | _ => none
+
+def parseStr? (t : String) : Option (Option (List Char)) :=
+  match t.toList with
+  | ['N'] => some none
+  | 'S' :: rest => (hexToChars? (String.ofList rest)).map some
+  | _ => none
+
+def parseRs? (t : String) : Option RetSig :=
+  match t.toList with
+  | ['K'] => some .noCheck
+  | ['N'] => some .pyNone
+  | 'S' :: rest => (hexToChars? (String.ofList rest)).map .str
+  | _ => none
+
+def parseBody? : List String → Option (Option (List DV))
+  | ["N"] => some none
+  | "L" :: toks => some (some toks)
+  | _ => none
+
+def parseTmo? (t : String) : Option (Option Nat) :=
+  if t == "N" then some none else if t == "Z" then some (some 0) else if t == "P" then some (some 1) else none
+
+def showCvt : Cvt DV → String
+  | .none => "N"
+  | .one v => "1 " ++ v
+  | .many vs => " ".intercalate ("L" :: vs)
+  | .remoteError t => "SE " ++ charsToHex t
+  | .pyError => "PYERR"
+
+def showOutcome : Outcome DV Nat → String
+  | .value c => showCvt c
+  | .remoteError n m vs => " ".intercalate ("RE" :: charsToHex n :: charsToHex m :: vs)
+  | .timeOut t => "TO " ++ charsToHex t
+  | .lost r => "LOST " ++ toString r
+  | .constructFailed => "EXC"
+
+def rsOf (s : DSt) (did : Nat) : RetSig :=
+  match dGet did s.issued with
+  | some rs => rs
+  | none => .noCheck
+
+def showFault : Fault → String
+  | .keyError => "keyError"
+  | .alreadyCalled => "alreadyCalled"
+
+def insertSorted (x : Nat × Nat) : List (Nat × Nat) → List (Nat × Nat)
+  | [] => [x]
+  | y :: t => if x.1 ≤ y.1 then x :: y :: t else y :: insertSorted x t
+
+def showState (old new : DSt) : String :=
+  let fs := (new.log.drop old.log.length).map fun (did, f) =>
+    toString did ++ "=" ++ showOutcome (outcome (rsOf new did) f)
+  let ps := new.pending.map fun (serial, p) =>
+    toString serial ++ ":" ++ toString p.did ++ ":" ++ (if p.timer.isSome then "t" else "-")
+  let ts := (new.timers.foldr insertSorted []).map fun (tid, serial) => toString tid ++ ":" ++ toString serial
+  let xs := (new.faults.drop old.faults.length).map showFault
+  "F[" ++ ";".intercalate fs ++ "] P[" ++ ",".intercalate ps ++ "] T[" ++ ",".intercalate ts
+    ++ "] X[" ++ ",".intercalate xs ++ "]"
+
+def parseOp? (ws : List String) : Option (Op DV Nat) :=
+  match ws with
+  | ["call", serial, er, tmo, rs] => do
+    let serial ← serial.toNat?
+    let tmo ← parseTmo? tmo
+    let rs ← parseRs? rs
+    pure (.call serial (er == "1") tmo rs)
+  | ["callbad", rs] => do
+    let rs ← parseRs? rs
+    pure (.callBad rs)
+  | "ret" :: serial :: sig :: body => do
+    let serial ← serial.toNat?
+    let sig ← parseStr? sig
+    let body ← parseBody? body
+    pure (.ret serial ⟨sig, body⟩)
+  | "err" :: serial :: name :: body => do
+    let serial ← serial.toNat?
+    let name ← parseStr? name
+    let body ← parseBody? body
+    pure (.err serial (name.getD []) body)
+  | ["expire", tid] => do
+    let tid ← tid.toNat?
+    pure (.expire tid)
+  | ["lost", r] => do
+    let r ← r.toNat?
+    pure (.lost r)
+  | _ => none
+
+def stepLine (s : DSt) (line : String) : DSt × String :=
+  let ws := words line
+  match ws with
+  | ["reset", r] => (St.init DV Nat (r == "1"), "ok")
+  | ["cvt", rs, "N"] =>
+    match parseRs? rs with
+    | some rs => (s, showCvt (cvtReply (none : Option (Reply DV)) rs))
+    | none => (s, "bad-input")
+  | "cvt" :: rs :: "M" :: sig :: body =>
+    match parseRs? rs, parseStr? sig, parseBody? body with
+    | some rs, some sig, some body => (s, showCvt (cvtReply (some ⟨sig, body⟩) rs))
+    | _, _, _ => (s, "bad-input")
+  | _ =>
+    match parseOp? ws with
+    | some op =>
+      let s' := step asStrTok s op
+      (s', showState s s')
+    | none => (s, "bad-input")
+
+def main : IO Unit := Driver.run stepLine (St.init DV Nat true)
